@@ -81,6 +81,20 @@ Theorem C09_marginalise_strided_refuted : exists (n : nat) (l : list nat),
 Proof. exact strided_refuted. Qed.
 Print Assumptions C09_marginalise_strided_refuted.
 
+(* AugmentedFlowProposal (marginalise_augment = False): the log-prior in the rejection weights is the model's log-prior plus
+   the Gaussian log-density of EVERY augment parameter: changing any one factor by d changes it by d ... *)
+Theorem C09_augmented_prior_every_factor : forall (m : Z) (es1 : list Z) (e : Z) (es2 : list Z) (d : Z),
+  full_prior Z.add 0%Z m (es1 ++ (e + d)%Z :: es2) = (full_prior Z.add 0%Z m (es1 ++ e :: es2) + d)%Z.
+Proof. exact full_prior_every_factor. Qed.
+Print Assumptions C09_augmented_prior_every_factor.
+
+(* ... and the variant that keeps only the last augment parameter's factor is refuted *)
+Theorem C09_augmented_prior_last_only_refuted : exists (m e1 e2 d : Z), d <> 0%Z /\
+  last_only_prior Z.add 0%Z m [(e1 + d)%Z; e2] = last_only_prior Z.add 0%Z m [e1; e2] /\
+  full_prior Z.add 0%Z m [(e1 + d)%Z; e2] <> full_prior Z.add 0%Z m [e1; e2].
+Proof. exact last_only_prior_refuted. Qed.
+Print Assumptions C09_augmented_prior_last_only_refuted.
+
 (* a flow pool has exactly the requested size when the loop ends *)
 Theorem C09_pool_size : forall sub strict minlq N bs pool k,
   flow_populate sub strict minlq N bs = Done (pool, k) -> length pool = N.
@@ -175,7 +189,11 @@ Theorem C09_radius_ball : forall (root : R -> R) (r fuzz u : R) (g : list R),
 Proof. exact ball_radius_bounded. Qed.
 Print Assumptions C09_radius_ball.
 
-(* finite rejection sampling: drawing from q and keeping with probability w / wmax yields p, normalised *)
+(* finite rejection sampling: drawing from q and keeping with probability w / wmax yields p, normalised.
+   HYPOTHESIS made explicit: the candidates ARE drawn with mass q, i.e. the latent draws follow the density whose log-density
+   populate uses as log_q (truncated Gaussian, uniform n-ball / n-sphere via alt_dist, Gaussian, uniform, the flow's base).
+   That is an oracle about numpy / scipy / the latent samplers; it is validated on every run by exact binomial bounds on the
+   real draw functions (harness: latent_predicate), not proved. *)
 Theorem C09_rejection_identity : forall (wmax : Q) (l : list (Q * Q)) (x : Q * Q),
   ~ (wmax == 0)%Q -> Forall (fun y => ~ (fst y == 0)%Q) l -> In x l -> ~ (qsum snd l == 0)%Q ->
   (acc_mass wmax x / qsum (acc_mass wmax) l == snd x / qsum snd l)%Q.
